@@ -245,6 +245,31 @@ func (w *c16world) build(t *core.Tape, typeOrder, relOrder []int, flip []bool, s
 				_ = s.Rels()
 			}
 
+			if h&4 != 0 {
+				// The names are first taken by other relationships (one-way, another
+				// cardinality, maybe another target), the caller looks at Rels(), removes
+				// them again and adds the real ones: same names, other definitions.
+				ph1 := jsonapi.Rel{FromType: rs.r.FromType, FromName: rs.r.FromName, ToType: w.types[(ri+1)%len(w.types)], ToOne: !rs.r.ToOne}
+				if err = s.AddRel(ph1.FromType, ph1); err != nil {
+					return
+				}
+
+				if rs.twoWay {
+					ph2 := jsonapi.Rel{FromType: rs.r.ToType, FromName: rs.r.ToName, ToType: rs.r.FromType, ToOne: !rs.r.FromOne}
+					if err = s.AddRel(ph2.FromType, ph2); err != nil {
+						return
+					}
+				}
+
+				_ = s.Rels()
+
+				s.RemoveRel(rs.r.FromType, rs.r.FromName)
+
+				if rs.twoWay {
+					s.RemoveRel(rs.r.ToType, rs.r.ToName)
+				}
+			}
+
 			switch {
 			case !rs.twoWay:
 				err = s.AddRel(rs.r.FromType, rs.r)
@@ -406,6 +431,11 @@ func (w *c16world) compare(t *core.Tape, st *core.Stats, skip map[int]bool, viaR
 					how[i] |= 2
 					st.Inc("probe:pair-added-with-AddTwoWayRel")
 				}
+
+				if rng.Intn(4) == 0 {
+					how[i] |= 4
+					st.Inc("probe:names-held-by-other-relationships-first")
+				}
 			}
 		}
 
@@ -467,7 +497,7 @@ func (w *c16world) compare(t *core.Tape, st *core.Stats, skip map[int]bool, viaR
 		}
 
 		lists[v] = rels
-		descs[v] = fmt.Sprintf("types %v rels %v flipped %v how %v (1=Rels() peeked before, 2=AddTwoWayRel), map order %s", typeOrder, relOrder, flip, how, mo.Name())
+		descs[v] = fmt.Sprintf("types %v rels %v flipped %v how %v (1=Rels() peeked before, 2=AddTwoWayRel, 4=names first held by other relationships, looked at and removed), map order %s", typeOrder, relOrder, flip, how, mo.Name())
 		t.Logf("variant %d (%s): Rels() = %s", v, descs[v], relsText(rels))
 
 		if relsText(rels) != relsText(again) {
